@@ -299,6 +299,11 @@ def _add(bundle: Bundle, val: BundleAttr) -> BundleAttr:
         msg = f"Invalid Bundle attribute {val} for {bundle}"
         raise TypeError(msg)
 
+    # If the name is being re-used, drop its former holder, which may be of the other kind.
+    if val.name in bundle.namespace:
+        bundle.signals.pop(val.name, None)
+        bundle.bundles.pop(val.name, None)
+
     # Add it to the bundle namespace, and the type-specific container
     type_ctr[val.name] = val
     bundle.namespace[val.name] = val
